@@ -28,6 +28,16 @@ def pad_slice_path(path1, path2):
     return path2
 
 
+def check_path_not_empty(path, sig_name):
+    """an object path must have at least one entry"""
+    if len(path) == 0:
+        raise MagpylibBadUserInput(
+            f"Input parameter `{sig_name}` must contain at least one entry, "
+            "an object path cannot be empty."
+        )
+    return path
+
+
 class BaseGeo(BaseTransform):
     """Initializes position and orientation properties
     of an object in a global CS.
@@ -115,6 +125,8 @@ class BaseGeo(BaseTransform):
             reshape=(-1, 3),
         )
         oriQ = check_format_input_orientation(orientation, init_format=True)
+        check_path_not_empty(pos, "position")
+        check_path_not_empty(oriQ, "orientation")
 
         # padding logic: if one is longer than the other, edge-pad up the other
         len_pos = pos.shape[0]
@@ -176,13 +188,16 @@ class BaseGeo(BaseTransform):
         old_pos = self._position
 
         # check and set new position
-        self._position = check_format_input_vector(
-            inp,
-            dims=(1, 2),
-            shape_m1=3,
-            sig_name="position",
-            sig_type="array_like (list, tuple, ndarray) with shape (3,) or (n,3)",
-            reshape=(-1, 3),
+        self._position = check_path_not_empty(
+            check_format_input_vector(
+                inp,
+                dims=(1, 2),
+                shape_m1=3,
+                sig_name="position",
+                sig_type="array_like (list, tuple, ndarray) with shape (3,) or (n,3)",
+                reshape=(-1, 3),
+            ),
+            "position",
         )
 
         # pad/slice and set orientation path to same length
@@ -221,6 +236,7 @@ class BaseGeo(BaseTransform):
 
         # set _orientation attribute with ndim=2 format
         oriQ = check_format_input_orientation(inp, init_format=True)
+        check_path_not_empty(oriQ, "orientation")
         self._orientation = R.from_quat(oriQ)
 
         # pad/slice position path to same length
